@@ -4,7 +4,7 @@
 usage: mutants.py [-j N] [--tier quick] <spec.json | dir> ...
 A spec is {"id": "...", "property": "C05", "checks": ["C05", ...] (default [property]), and either
            "file": "homonim/utils.py", "old": "...", "new": "..." [, "count": 1]   or   "patch": "path/to/patch.diff" (relative to /verif),
-           "expect": "caught" | "equivalent", "note": "..."}.
+           "expect": "caught" | "equivalent" | "tie-only" (behaviour-preserving, may break a tie but must not yield a concrete failing input), "note": "..."}.
 For every spec a scratch worktree of /repo (HEAD + /repo's uncommitted changes are NOT included) and a scratch copy of /verif are made
 under /tmp, the mutation is applied, the listed checks run there with HOMONIM_REPO pointing at the worktree, and both copies are removed."""
 import json
@@ -88,7 +88,13 @@ def main():
     bad = 0
     for r in out:
         verdict = 'ERROR ' + r['error'] if 'error' in r else ('caught' if r['caught'] else 'MISSED')
-        ok = ('error' not in r) and ((r['expect'] == 'caught') == r['caught'])
+        concrete = sum(v.get('concrete', 0) for v in r.get('results', {}).values())
+        if r['expect'] == 'tie-only':
+            # a behaviour-preserving restructuring beyond what the translators look through: a broken tie (no-failing-input-found) is the documented
+            # limit; what must never happen is a CONCRETE failing input on code where the property holds
+            ok = ('error' not in r) and concrete == 0
+        else:
+            ok = ('error' not in r) and ((r['expect'] == 'caught') == r['caught'])
         bad += not ok
         by = ', '.join(f"{c}:{('V' + str(v.get('concrete', '')) + '+' + str(v.get('unlocated', ''))) if v['violation'] else '-'}" for c, v in r.get('results', {}).items())
         what = next((v['what'] for v in r.get('results', {}).values() if v['what']), '')
